@@ -152,7 +152,7 @@ type c10Scenario struct {
 	FailureCodes []int       `json:"failure_codes"`
 	Clients      []c10Client `json:"clients"`
 	MaxBody      int64       `json:"max_body"` // pool serverMaxBodySize; 0: omitted (default)
-	Net          bool        `json:"net"` // variant: real http.Transport over simnet against a scripted backend server
+	Net          bool        `json:"net"`      // variant: real http.Transport over simnet against a scripted backend server
 }
 
 func c10InCodes(codes []int, s int) bool {
@@ -469,7 +469,6 @@ func c10Build(r *sim.Run, sc *c10Scenario) (*c10Ref, map[string]resilience.Polic
 
 	return ref, policies, spec, true
 }
-
 
 type c10Att struct {
 	entry, end time.Duration
@@ -951,6 +950,9 @@ func c10Exec(r *sim.Run, sci interface{}) {
 					return
 				}
 				stdr.RemoteAddr = "203.0.113.9:40000"
+				if stdr.Body == nil {
+					stdr.Body = http.NoBody // as on a server-side request (a shrunk scenario may have a stream with no bytes)
+				}
 				req, err := httpprot.NewRequest(stdr)
 				if err != nil {
 					cancel()
